@@ -439,7 +439,7 @@ def check_table(rep, proj, tier):
         ev.call(S.FuncVal(ev, f), [{"TargetDIS": "unobtainium"}], {})
         rep.bad("C12.table", f.site, f"{f.fq}[unknown]", "unknown target name is accepted silently")
     except S.Raised as r:
-        rep.check(r.etype == "ValueError" and isinstance(r.node, ast.Raise), "C12.table", f.site, f"{f.fq}[unknown]",
+        rep.check(S.raised_is(r, "ValueError") and isinstance(r.node, ast.Raise), "C12.table", f.site, f"{f.fq}[unknown]",
                   "unknown target name raises ValueError", f"unknown target name ends in {r}")
 
 
